@@ -414,6 +414,8 @@ func Generate(r *hx.Rand, o GenOptions) *Spec {
 				}
 			} else if vi > 0 && r.Chance(1, 5) {
 				ty = valNames[0]
+			} else if r.Chance(1, 5) {
+				ty = hx.Pick(r, []string{"[Int]", "[String!]", "[String]!"}) // a list of scalars inside an embedded object
 			}
 			t.Fields = append(t.Fields, FieldSpec{Name: fmt.Sprintf("%sf%d", strings.ToLower(vn), k), Type: ty})
 		}
